@@ -204,6 +204,28 @@ fn interop_retry_paths<V: Fv, R: RefImpl>(seed: u64, heavy: &mut Shards, light: 
     }
 }
 
+/// Keys from seeds whose candidate stream passes through the (F, G) range decision of key generation (corpus.rs): the key that is
+/// finally returned must be importable by the reference (it checks |F|, |G| <= 127 on import) and signatures must cross-verify.
+fn interop_corpus_keys<V: Fv, R: RefImpl>(count: usize, heavy: &mut Shards, light: &mut Shards) {
+    for (i, tag) in crate::corpus::fg_window(V::N).iter().take(count) {
+        let (sk, pk) = V::keygen(crate::corpus::corpus_seed(*i));
+        let (skb, pkb) = (V::sk_to_bytes(&sk), V::pk_to_bytes(&pk));
+        let msg = format!("corpus key {}", i).into_bytes();
+        match R::sign(&msg, &skb) {
+            Some(rsig) => {
+                let ours = from_ref_sig::<V>(&rsig);
+                let v = V::sig_from_bytes(&ours).map(|s| V::verify(&msg, &s, &pk)).unwrap_or(false);
+                light.emit(cross("we-verify-ref-signature-under-our-corpus-key", V::N, v, tag));
+                light.emit(cross("ref-verifies-its-signature-under-our-corpus-pk", V::N, R::verify(&msg, &rsig, &pkb), tag));
+                heavy.emit(honest_event::<V>(&msg, &ours, &pkb, "ref-our-corpus-key"));
+            }
+            None => light.emit(cross("ref-signs-with-our-corpus-key", V::N, false, tag)),
+        }
+        let sig = V::sig_to_bytes(&V::sign(&msg, &sk));
+        light.emit(cross("ref-verifies-our-signature-under-corpus-key", V::N, R::verify(&msg, &to_ref_sig(&sig), &pkb), tag));
+    }
+}
+
 pub fn c16(args: &Args) {
     let seed = args.num("--seed", 1);
     let thorough = args.thorough();
@@ -212,6 +234,8 @@ pub fn c16(args: &Args) {
     let mut light = Shards::create(&dir, "cross", 1);
     interop_variant::<V512, Ref512>(seed, if thorough { 10 } else { 2 }, if thorough { 10 } else { 3 }, &mut heavy, &mut light);
     interop_variant::<V1024, Ref1024>(seed, if thorough { 4 } else { 1 }, if thorough { 8 } else { 3 }, &mut heavy, &mut light);
+    interop_corpus_keys::<V512, Ref512>(if thorough { 8 } else { 4 }, &mut heavy, &mut light);
+    interop_corpus_keys::<V1024, Ref1024>(if thorough { 8 } else { 2 }, &mut heavy, &mut light);
     interop_retry_paths::<V512, Ref512>(seed, &mut heavy, &mut light);
     interop_retry_paths::<V1024, Ref1024>(seed, &mut heavy, &mut light);
     interop_bulk::<V512, Ref512>(seed, if thorough { 40000 } else { 3000 }, &mut heavy, &mut light);
